@@ -100,9 +100,10 @@ def _input_text(inp):
         return "this is not\nfasta at all\n"
     if inp["kind"] == "empty":
         return ""
-    ln = 4 if inp["kind"] == "short" else inp["len"]
+    # (the minimiser lowers integers: keep every plan a valid input file)
+    ln = 4 if inp["kind"] == "short" else max(6, inp["len"])
     return "".join(
-        f">s{i}\n" + "".join(r.choice("ACGT") for _ in range(ln)) + "\n" for i in range(inp["nseq"])
+        f">s{i}\n" + "".join(r.choice("ACGT") for _ in range(ln)) + "\n" for i in range(max(1, inp["nseq"]))
     )
 
 
@@ -148,7 +149,7 @@ def predict(plan, inp, names):
         return ("nc", "ERROR", "load_unaligned")
     pos = 0 if plan["input_form"] == "objects" else 1
     if plan["min_length"]:
-        if inp["kind"] == "short" or inp["len"] < plan["min_length"]:
+        if inp["kind"] == "short" or max(6, inp["len"]) < plan["min_length"]:
             return ("nc", "FALSE", "min_length")
         pos += 1
     for k, st in enumerate(plan["steps"]):
@@ -501,7 +502,7 @@ def describe(plan):
 
 
 MINIMISE_KW = {"protect": ("engine", "idclass", "stem", "kind", "tag", "writer", "out_mode", "input_form",
-                           "dir_order", "mode"),
+                           "dir_order", "mode", "min_length"),
                "list_keys": ("inputs", "steps", "choices", "durations", "services"),
                "budget_s": 40.0, "max_tries": 150}
 
